@@ -6,7 +6,7 @@ PROP_FILE = ['C18', 'C18Frame', 'C19']
 
 
 def mons():
-    return [M.m_terminates, M.m_barrier, M.m_isolation, M.m_permits_restored, M.m_success_means_all_ok]
+    return [M.m_terminates, M.m_barrier, M.m_isolation, M.m_permits_restored, M.m_success_means_all_ok, M.m_shared_args_untouched]
 
 
 def specs(ctx):
@@ -33,6 +33,24 @@ def specs(ctx):
         else:
             spec['cancel'] = dict(how='exit_nowait')
         out.append(spec)
+    # the caller reuses ONE extra_args dict for every transfer it submits (allowed for all four
+    # kinds): no transfer may change it, and none may be refused because of what another one did
+    for i in range(60 if ctx.thorough() else 16):
+        ts = [dict(kind='upload', src=rng.choice(['path', 'seekable']), size=rng.choice([2, 10])),
+              dict(kind='download', dst='path', size=rng.choice([2, 10])), dict(kind='delete', size=1),
+              dict(kind='copy', size=rng.choice([2, 10]))]
+        rng.shuffle(ts)
+        spec = dict(transfers=ts, cfg=sysrun.CFG_SMALL, chooser=sysrun.chooser(rng, i), victims=[],
+                    shared_extra_args={'RequestPayer': 'requester'}, fresh_after=bool(i % 2),
+                    checksum=['when_supported', 'when_required'][i % 2])
+        if i % 3 == 1:
+            spec['victims'] = ['t0']
+            spec['s3_fault'] = dict(key='k0', nth=0, when='before')
+        out.append(spec)
+    # one transfer cancelled in its earliest phases (not-started / queued / first steps) while others run
+    for sp in sysrun.specs_early_cancel(ctx, sysrun.KINDS[::3], seeds=1 if not ctx.thorough() else 3):
+        ts = sp['transfers'] + [dict(kind='download', dst='path', size=10)]
+        out.append(dict(sp, transfers=ts, victims=['t0']))
     return out
 
 
